@@ -462,6 +462,50 @@ theorem activate_frame (s : State) (p : Proposal) :
     (activate s p).props = putProp s.props { p with status := .voting, votingStart := s.time, votingEnd := s.time + activationPeriod s p } := by
   simp [activate]
 
+/-- **the statement order of `AddDeposit` is the one the one-piece effect assumes**: coins sent and the total updated and
+stored BEFORE the minimum of the message type replaces the default and the activation test runs on the updated local
+proposal; the deposit record last -/
+theorem addDepositSteps_order : addDepositSteps =
+    ["getProposal", "statusCheck", "getParams", "defaultMin", "getRatio", "denomCheck", "ratioCheck", "sendCoins", "addTotal",
+     "setProposal", "msgMin", "flag", "activate", "getDeposit", "mergeDeposit", "hooks", "sdkCtx", "event", "setDeposit", "return"] := rfl
+
+theorem depositRun_eq (s : State) (p : Proposal) (who : Addr) (amt : Nat) : depositRun s p who amt = depositEffect s p who amt := by
+  unfold depositRun
+  rw [addDepositSteps_order]
+  -- the statements that neither read nor write what the model keeps
+  have n1 : ∀ l, depStep who amt l "getProposal" = l := fun _ => rfl
+  have n2 : ∀ l, depStep who amt l "statusCheck" = l := fun _ => rfl
+  have n3 : ∀ l, depStep who amt l "getParams" = l := fun _ => rfl
+  have n4 : ∀ l, depStep who amt l "getRatio" = l := fun _ => rfl
+  have n5 : ∀ l, depStep who amt l "denomCheck" = l := fun _ => rfl
+  have n6 : ∀ l, depStep who amt l "ratioCheck" = l := fun _ => rfl
+  have n7 : ∀ l, depStep who amt l "flag" = l := fun _ => rfl
+  have n8 : ∀ l, depStep who amt l "getDeposit" = l := fun _ => rfl
+  have n9 : ∀ l, depStep who amt l "mergeDeposit" = l := fun _ => rfl
+  have n10 : ∀ l, depStep who amt l "hooks" = l := fun _ => rfl
+  have n11 : ∀ l, depStep who amt l "sdkCtx" = l := fun _ => rfl
+  have n12 : ∀ l, depStep who amt l "event" = l := fun _ => rfl
+  have n13 : ∀ l, depStep who amt l "return" = l := fun _ => rfl
+  -- the seven that do
+  have e1 : ∀ l, depStep who amt l "defaultMin" = { l with min := ⟨some (defaultMin l.s l.p.expedited), none⟩ } := fun _ => rfl
+  have e2 : ∀ l, depStep who amt l "sendCoins" =
+      { l with s := { l.s with bal := setBal l.s.bal who (getBal l.s.bal who - amt), gov := l.s.gov + amt } } := fun _ => rfl
+  have e3 : ∀ l, depStep who amt l "addTotal" = { l with p := { l.p with total := l.p.total + amt } } := fun _ => rfl
+  have e4 : ∀ l, depStep who amt l "setProposal" = { l with s := { l.s with props := putProp l.s.props l.p } } := fun _ => rfl
+  have e5 : ∀ l, depStep who amt l "msgMin" = { l with min := minForMsgs l.s.custom (l.min.fx.getD 0) l.p.msgs } := fun _ => rfl
+  have e6 : ∀ l, depStep who amt l "activate" =
+      (if l.p.status == .deposit && reaches l.p.total l.min then { l with s := activate l.s l.p } else l) := fun _ => rfl
+  have e7 : ∀ l, depStep who amt l "setDeposit" =
+      { l with s := { l.s with deps := addDep l.s.deps l.p.id who amt, paid := l.s.paid ++ [⟨l.p.id, who, amt⟩] } } := fun _ => rfl
+  simp only [List.foldl, n1, n2, n3, n4, n5, n6, n7, n8, n9, n10, n11, n12, n13, e1, e2, e3, e4, e5, e7]
+  rw [e6]
+  simp only [Option.getD_some]
+  unfold depositEffect
+  simp only
+  by_cases hc : (p.status == .deposit && reaches (p.total + amt) (minForMsgs s.custom (defaultMin s p.expedited) p.msgs)) = true
+  · rw [if_pos hc, if_pos hc]
+  · rw [if_neg hc, if_neg hc]
+
 theorem addDeposit_ok {s s' : State} {pid who amt : Nat} (h : addDeposit s pid who amt = .ok s') :
     ∃ p, findProp s.props pid = some p ∧ isOpenSt p.status = true ∧ s' = depositEffect s p who amt := by
   unfold addDeposit at h
@@ -476,7 +520,7 @@ theorem addDeposit_ok {s s' : State} {pid who amt : Nat} (h : addDeposit s pid w
       · split at h
         · cases h
         · cases h
-          refine ⟨p, hp, ?_, rfl⟩
+          refine ⟨p, hp, ?_, depositRun_eq s p who amt⟩
           simp only [isOpenSt]
           cases hs : p.status <;> simp_all
 
@@ -557,6 +601,16 @@ theorem cancel_inv {s s' : State} {pid : Nat} {who : Addr} (hi : Inv s) (h : can
                 have := noRec_depsNot hi.recs d hd
                 rw [isOpenId_dropProp_other this.2]; exact this.1
 
+/-- the only way a deposit with a foreign denomination succeeds is not to carry one -/
+theorem depositX_ok {s s' : State} {pid who fx other : Nat} (h : depositX s pid who fx other = .ok s') :
+    other = 0 ∧ deposit s pid who fx = .ok s' := by
+  unfold depositX at h
+  split at h
+  · rename_i h0; exact ⟨by simpa using h0, h⟩
+  · split at h
+    · cases h
+    · split at h <;> cases h
+
 theorem step_inv (h1 : inactiveSettleShapeOk = true) (h2 : settleShapeOk = true) (h3 : execInCacheCtx = true)
     {s : State} (op : Op) (hi : Inv s) : Inv (step s op).1 := by
   cases op with
@@ -576,6 +630,16 @@ theorem step_inv (h1 : inactiveSettleShapeOk = true) (h2 : settleShapeOk = true)
     simp only [step, Model.C15.ofExcept]
     split
     · rename_i s' h
+      unfold deposit at h
+      split at h
+      · cases h
+      · exact addDeposit_inv hi h
+    · exact hi
+  | depositX pid who fx other =>
+    simp only [step, Model.C15.ofExcept]
+    split
+    · rename_i s' h
+      have h := (depositX_ok h).2
       unfold deposit at h
       split at h
       · cases h
